@@ -68,6 +68,18 @@ CLAIMED.update({
                      "writer option sets; failed writes obey the same frame condition."),
 })
 
+CLAIMED.update({
+    "C02": dict(cat="exploration", ref="DESIGN.md 3 (C02)",
+                technique="deterministic simulation of the read stream protocol: the same generated document delivered through "
+                          "simulated channels (path/Path/stream/StringIO/string x codec x newline x delivery policy) and read with "
+                          "both engines plus a forced failure of the fast engine (buggify) that the fallback must mask; engine trace "
+                          "via the module-attribute seam; complete sweep of a 360-point layout lattice",
+                text="Differential oracle exactly as stated (same shape, bit-identical values, same NaN mask, equal header "
+                     "sections) on seeded layouts: 1x1, 1xn, nx1, padding, blank/comment lines at every site, ~A before other "
+                     "sections, LF/CRLF/CR, missing final newline; the engine trace shows the fast engine really produced the "
+                     "compared data."),
+})
+
 NOT_APPLICABLE = {
     "C04": "read_header_line is a pure function of one already-delivered line (regex cascade): no stream position, "
            "history, fault or interleaving can influence it, so deterministic simulation adds nothing (DESIGN.md 4)",
